@@ -19,6 +19,16 @@
 (*                                                                         *)
 (* Signatures: SignatureBoundToKid says a signature requested for key id   *)
 (* k verifies with exactly the public key published (resolvable) for k.    *)
+(*                                                                         *)
+(* Used only BY KEY ID (two input dimensions of every private-key          *)
+(* operation):                                                             *)
+(*  - the REQUEST key id may be one no key is bound to (empty, unknown, a   *)
+(*    near miss of an existing kid, an SQL wildcard, a storage name ...):  *)
+(*    UnboundKidSelectsNothing says such a request never selects a key.    *)
+(*  - the caller supplied headers of SignJWT / SignJWS may themselves      *)
+(*    carry a `kid`: ArtefactNamesSigner / AuditNamesSigner say the kid    *)
+(*    written into the produced artefact and into the audit record names   *)
+(*    the key that really signed, whatever the caller put there.           *)
 (***************************************************************************)
 EXTENDS Naturals, FiniteSets, Sequences, TLC
 
@@ -38,7 +48,14 @@ CONSTANTS
     RefusedSecretFamilies, \* key families whose PRIVATE / SYMMETRIC jwk header SignJWS refuses (prescriptive: all of them)
     StaleSignerCache,      \* the signer handed out for a kid is memoised and never invalidated
     SigningKeyEchoed,      \* a requested jwk header is filled with the SIGNING key pair instead of its public half
-    ErrorCarriesKey        \* the error of an operation that fails for the key's family is formatted with the key itself
+    ErrorCarriesKey,       \* the error of an operation that fails for the key's family is formatted with the key itself
+    UnboundKidSelectsKey,  \* the kid -> key reference lookup answers a request for an UNBOUND key id with some existing key
+    CallerKidHeaderWins    \* a `kid` among the caller supplied headers survives into the artefact / the audit record
+
+CONSTANTS
+    KidClasses,      \* classes of REQUEST key ids no key is bound to (empty, unknown, near misses of an existing kid, wildcards ...)
+    HdrKidClasses    \* caller supplied `kid` header of SignJWT / SignJWS that is not a kid of the model: none | unbound | empty
+                     \* (the header may also name any kid of Kids: the requested one, or ANOTHER key's)
 
 CONSTANTS PatternOK(_),      \* the name class matches the wrapper's pattern
           Outside(_, _)      \* (backend, name class): the backend would address storage outside the namespace
@@ -67,12 +84,15 @@ VARIABLES
     cache,     \* kid -> key material of the memoised signer (only used when StaleSignerCache), or NoKey
     alias,     \* name classes for which an (SQL) key reference exists
     chan,      \* channel -> set of atoms emitted so far
-    sigs,      \* signatures made: [kid |-> requested kid, by |-> key material that signed, pub |-> key material resolvable for the kid]
+    sigs,      \* signatures made: [kid |-> requested kid, by |-> key material that signed, pub |-> key material resolvable for the kid,
+               \*   named |-> key material resolvable for the kid WRITTEN INTO the artefact (NA: the artefact carries no kid),
+               \*   audited |-> key material resolvable for the kid the audit record of the signature names]
+    uses,      \* private-key operations that SUCCEEDED for an unbound request kid: [cls |-> kid class, by |-> key material selected]
     seen,      \* <<backend, name class>> pairs that reached a backend
     ops, hist
 
-vars == <<keys, ref, gen, fam, gone, cache, alias, chan, sigs, seen, ops, hist>>
-view == <<keys, ref, gen, fam, gone, cache, alias, chan, sigs, seen, ops>>
+vars == <<keys, ref, gen, fam, gone, cache, alias, chan, sigs, uses, seen, ops, hist>>
+view == <<keys, ref, gen, fam, gone, cache, alias, chan, sigs, uses, seen, ops>>
 Log(e) == hist' = IF Hist THEN Append(hist, e) ELSE hist
 
 Init ==
@@ -80,7 +100,7 @@ Init ==
     /\ gen = [k \in Kids |-> 0] /\ gone = {} /\ cache = [k \in Kids |-> NoKey]
     /\ fam = [k \in Kids |-> "EC-P256"]
     /\ chan = [c \in Channels |-> {}]
-    /\ sigs = {} /\ seen = {} /\ ops = 0 /\ hist = <<>>
+    /\ sigs = {} /\ uses = {} /\ seen = {} /\ ops = 0 /\ hist = <<>>
 
 Emit(c, atoms) == [chan EXCEPT ![c] = @ \cup atoms]
 EmitAll(m) == [c \in Channels |-> chan[c] \cup (IF c \in DOMAIN m THEN m[c] ELSE {})]
@@ -101,7 +121,7 @@ New(k) ==
     /\ chan' = EmitAll([fileName |-> {Name(k)}, sqlRow |-> {Kid(k), Name(k)}, didDocument |-> {Pub(k), Kid(k)},
                         httpResponse |-> {Pub(k), Kid(k)}, jwsHeader |-> {Pub(k), Kid(k)}, auditLog |-> {Kid(k)}, log |-> {Kid(k)}])
     /\ Log([a |-> "New", k |-> k])
-    /\ UNCHANGED <<alias, sigs, seen, cache>>
+    /\ UNCHANGED <<alias, sigs, seen, cache, uses>>
 
 \* a key of family f that got into the backend from outside (imported PEM) and is registered by Link or by Migrate:
 \* the store holds it like any other key; no DID document knows it
@@ -112,31 +132,47 @@ Import(k, f, via) ==
     /\ gone' = gone \ {k} /\ fam' = [fam EXCEPT ![k] = f]
     /\ chan' = EmitAll([fileName |-> {Name(k)}, sqlRow |-> {Kid(k), Name(k)}, log |-> {Kid(k)}])
     /\ Log([a |-> "Import", k |-> k, fam |-> f, via |-> via])
-    /\ UNCHANGED <<alias, sigs, seen, cache>>
+    /\ UNCHANGED <<alias, sigs, seen, cache, uses>>
 
-Signed(k) == {[kid |-> k, by |-> SignerFor(k), pub |-> ref[k]]}
+\* the kid a caller may put among the headers: none, one of the unbound classes, or a kid of the model
+HdrKids == HdrKidClasses \cup Kids
+NA == <<"n/a", 0>>
+\* the kid written into the artefact / the audit record of a signature requested for k with caller header kid hk
+WrittenKid(k, hk) == IF CallerKidHeaderWins /\ hk # None THEN hk ELSE k
+KeyOfWritten(n) == IF n \in Kids THEN ref[n] ELSE NoKey
+\* a signature whose artefact carries a kid header (JWT, JWS without jwk header, LD proof, transaction) ...
+SignedAs(k, hk) == {[kid |-> k, by |-> SignerFor(k), pub |-> ref[k],
+                     named |-> KeyOfWritten(WrittenKid(k, hk)), audited |-> KeyOfWritten(WrittenKid(k, hk))]}
+\* ... and one whose artefact carries a jwk header instead (kid dropped from the artefact, still named by the audit record)
+SignedNoKid(k, hk) == {[kid |-> k, by |-> SignerFor(k), pub |-> ref[k], named |-> NA, audited |-> KeyOfWritten(WrittenKid(k, hk))]}
+Signed(k) == SignedAs(k, None)
 
-SignJWT(k) ==
+\* what a kid header / audit record shows: the atom of the kid written (a caller supplied string is caller data)
+WrittenAtom(k, hk) == IF WrittenKid(k, hk) \in Kids THEN Kid(WrittenKid(k, hk)) ELSE <<"callerkid", WrittenKid(k, hk)>>
+
+\* SignJWT with caller supplied headers; hk = the `kid` the caller put among them (None: no kid header supplied)
+SignJWT(k, hk) ==
     /\ Step /\ CanSign(k)
-    /\ chan' = EmitAll([token |-> {Kid(k)}, jwsHeader |-> {Kid(k)}, httpResponse |-> {Kid(k)}, auditLog |-> {Kid(k)}])
-    /\ sigs' = sigs \cup Signed(k)
-    /\ Log([a |-> "SignJWT", k |-> k])
-    /\ Memoise(k) /\ UNCHANGED <<keys, ref, gen, fam, gone, alias, seen>>
+    /\ chan' = EmitAll([token |-> {Kid(k)}, jwsHeader |-> {WrittenAtom(k, hk)}, httpResponse |-> {Kid(k)}, auditLog |-> {WrittenAtom(k, hk)}])
+    /\ sigs' = sigs \cup SignedAs(k, hk)
+    /\ Log([a |-> "SignJWT", k |-> k, hk |-> hk])
+    /\ Memoise(k) /\ UNCHANGED <<keys, ref, gen, fam, gone, alias, seen, uses>>
 
 \* SignJWS with caller supplied headers; j = <<class, family>> of the jwk header.  A private or symmetric key in the
 \* header must be refused whatever its family: otherwise the produced JWS publishes it.
-SignJWS(k, j) ==
+\* hk = the `kid` the caller put among the headers: the store must write the id of the key it uses, whatever was there.
+SignJWS(k, j, hk) ==
     /\ Step /\ CanSign(k)
     /\ IF IsSecretJwk(j) /\ j[2] \in RefusedSecretFamilies
        THEN \* refused: "refusing to sign JWS with private key in JWK header"
-            /\ chan' = Emit("auditLog", {Kid(k)}) /\ UNCHANGED <<sigs, cache>>
+            /\ chan' = Emit("auditLog", {WrittenAtom(k, hk)}) /\ UNCHANGED <<sigs, cache>>
        ELSE /\ chan' = EmitAll([jwsHeader |-> (CASE j[1] = "pub" -> (IF SigningKeyEchoed THEN {Sec(k)} ELSE {CallerPub(j[2])})
                                                  [] IsSecretJwk(j) -> {CallerSec(j[2])}
-                                                 [] OTHER -> {Kid(k)}),
-                                httpResponse |-> {Kid(k)}, auditLog |-> {Kid(k)}])
-            /\ sigs' = sigs \cup Signed(k) /\ Memoise(k)
-    /\ Log([a |-> "SignJWS", k |-> k, jwk |-> j[1] \o ":" \o j[2]])
-    /\ UNCHANGED <<keys, ref, gen, fam, gone, alias, seen>>
+                                                 [] OTHER -> {WrittenAtom(k, hk)}),
+                                httpResponse |-> {Kid(k)}, auditLog |-> {WrittenAtom(k, hk)}])
+            /\ sigs' = sigs \cup (IF j[1] = None THEN SignedAs(k, hk) ELSE SignedNoKid(k, hk)) /\ Memoise(k)
+    /\ Log([a |-> "SignJWS", k |-> k, jwk |-> j[1] \o ":" \o j[2], hk |-> hk])
+    /\ UNCHANGED <<keys, ref, gen, fam, gone, alias, seen, uses>>
 
 \* DPoP proof: the public key travels in the jwk header
 SignDPoP(k) ==
@@ -144,7 +180,7 @@ SignDPoP(k) ==
     /\ chan' = EmitAll([jwsHeader |-> {Pub(k)}, token |-> {Kid(k)}, httpResponse |-> {Pub(k)}, auditLog |-> {Kid(k)}])
     /\ sigs' = sigs \cup Signed(k)
     /\ Log([a |-> "SignDPoP", k |-> k])
-    /\ Memoise(k) /\ UNCHANGED <<keys, ref, gen, fam, gone, alias, seen>>
+    /\ Memoise(k) /\ UNCHANGED <<keys, ref, gen, fam, gone, alias, seen, uses>>
 
 \* JSON-LD proof (credential issued by the subject of k): proof.verificationMethod names the kid
 SignLD(k) ==
@@ -152,7 +188,7 @@ SignLD(k) ==
     /\ chan' = EmitAll([httpResponse |-> {Kid(k)}, jwsHeader |-> {Kid(k)}, sqlRow |-> {Kid(k)}, auditLog |-> {Kid(k)}])
     /\ sigs' = sigs \cup Signed(k)
     /\ Log([a |-> "SignLD", k |-> k])
-    /\ Memoise(k) /\ UNCHANGED <<keys, ref, gen, fam, gone, alias, seen>>
+    /\ Memoise(k) /\ UNCHANGED <<keys, ref, gen, fam, gone, alias, seen, uses>>
 
 \* DAG transaction signed by k (DID document update of a did:nuts subject)
 SignTx(k) ==
@@ -160,7 +196,7 @@ SignTx(k) ==
     /\ chan' = EmitAll([jwsHeader |-> {Kid(k)}, httpResponse |-> {Kid(k), Pub(k)}, didDocument |-> {Pub(k), Kid(k)}, auditLog |-> {Kid(k)}])
     /\ sigs' = sigs \cup Signed(k)
     /\ Log([a |-> "SignTx", k |-> k])
-    /\ Memoise(k) /\ UNCHANGED <<keys, ref, gen, fam, gone, alias, seen>>
+    /\ Memoise(k) /\ UNCHANGED <<keys, ref, gen, fam, gone, alias, seen, uses>>
 
 \* JWE addressed to k, decrypted by key id: the plaintext (caller data) comes back, nothing of the key
 FamOfSigner(k) == fam[SignerFor(k)[1]]
@@ -173,14 +209,14 @@ Decrypt(k) ==
                ELSE \* "unsupported decryption key": returned to the caller, who logs it (network/dag EncryptedPAL.Decrypt)
                     EmitAll([errorText |-> Failure(k), httpResponse |-> Failure(k), log |-> Failure(k)])
     /\ Log([a |-> "Decrypt", k |-> k])
-    /\ Memoise(k) /\ UNCHANGED <<keys, ref, gen, fam, gone, alias, sigs, seen>>
+    /\ Memoise(k) /\ UNCHANGED <<keys, ref, gen, fam, gone, alias, sigs, seen, uses>>
 
 \* Exists / EncryptJWE for the key's public half / DecryptJWE: nothing but the kid (or a failure naming the kid) comes out
 Exists(k) ==
     /\ Step
     /\ chan' = EmitAll([httpResponse |-> {Kid(k)}])
     /\ Log([a |-> "Exists", k |-> k])
-    /\ UNCHANGED <<keys, ref, gen, fam, gone, cache, alias, sigs, seen>>
+    /\ UNCHANGED <<keys, ref, gen, fam, gone, cache, alias, sigs, seen, uses>>
 
 JWE(k) ==
     /\ Step /\ CanSign(k)
@@ -188,19 +224,19 @@ JWE(k) ==
                THEN EmitAll([httpResponse |-> {Kid(k)}, token |-> {Kid(k)}, auditLog |-> {Kid(k)}])
                ELSE EmitAll([errorText |-> Failure(k), httpResponse |-> Failure(k), auditLog |-> {Kid(k)}])
     /\ Log([a |-> "JWE", k |-> k])
-    /\ Memoise(k) /\ UNCHANGED <<keys, ref, gen, fam, gone, alias, sigs, seen>>
+    /\ Memoise(k) /\ UNCHANGED <<keys, ref, gen, fam, gone, alias, sigs, seen, uses>>
 
 Resolve(k) ==
     /\ Step /\ Usable(k)
     /\ chan' = EmitAll([httpResponse |-> {Pub(k), Kid(k)}, didDocument |-> {Pub(k), Kid(k)}])
     /\ Log([a |-> "Resolve", k |-> k])
-    /\ UNCHANGED <<keys, ref, gen, fam, gone, cache, alias, sigs, seen>>
+    /\ UNCHANGED <<keys, ref, gen, fam, gone, cache, alias, sigs, seen, uses>>
 
 List ==
     /\ Step
     /\ chan' = EmitAll([httpResponse |-> {Kid(m[1]) : m \in keys}, log |-> {Kid(m[1]) : m \in keys}])
     /\ Log([a |-> "List"])
-    /\ UNCHANGED <<keys, ref, gen, fam, gone, cache, alias, sigs, seen>>
+    /\ UNCHANGED <<keys, ref, gen, fam, gone, cache, alias, sigs, seen, uses>>
 
 \* Delete removes the key reference and the key material; every kid that pointed at it can no longer sign
 Delete(k) ==
@@ -210,17 +246,29 @@ Delete(k) ==
     /\ gone' = gone \cup {q \in Kids : ref[q] = ref[k]}
     /\ chan' = Emit("auditLog", {Kid(k)})
     /\ Log([a |-> "Delete", k |-> k])
-    /\ UNCHANGED <<gen, fam, cache, alias, sigs, seen>>
+    /\ UNCHANGED <<gen, fam, cache, alias, sigs, seen, uses>>
 
 \* a signature (or decryption) requested for a kid whose key was deleted: must fail with "private key not found"
 SignDeleted(k) ==
     /\ Step /\ k \in gone
     /\ IF StaleSignerCache /\ cache[k] # NoKey
-       THEN sigs' = sigs \cup {[kid |-> k, by |-> cache[k], pub |-> NoKey]}
+       THEN sigs' = sigs \cup {[kid |-> k, by |-> cache[k], pub |-> NoKey, named |-> NoKey, audited |-> NoKey]}
        ELSE UNCHANGED sigs
     /\ chan' = Emit("auditLog", {Kid(k)})
     /\ Log([a |-> "SignDeleted", k |-> k])
-    /\ UNCHANGED <<keys, ref, gen, fam, gone, cache, alias, seen>>
+    /\ UNCHANGED <<keys, ref, gen, fam, gone, cache, alias, seen, uses>>
+
+\* every private-key operation (sign JWT / JWS / DPoP, decrypt, decrypt JWE) plus Exists / Resolve / Delete requested for a
+\* key id of class c to which NO key is bound, while other keys exist: nothing may be selected; the failure names the
+\* requested id (caller data).  With the deviation the lookup answers with some existing key.
+UseUnbound(c) ==
+    /\ Step
+    /\ IF UnboundKidSelectsKey /\ keys # {}
+       THEN \E m \in keys : uses' = uses \cup {[cls |-> c, by |-> m]}
+       ELSE UNCHANGED uses
+    /\ chan' = EmitAll([errorText |-> {<<"callerkid", "unbound">>}, httpResponse |-> {<<"callerkid", "unbound">>}])
+    /\ Log([a |-> "UseUnbound", kc |-> c])
+    /\ UNCHANGED <<keys, ref, gen, fam, gone, cache, alias, sigs, seen>>
 
 \* crypto.Link: a key reference row kid -> storage name of another existing key (new reference, or re-link of a used one)
 LinkKey(k, q) ==
@@ -228,14 +276,14 @@ LinkKey(k, q) ==
     /\ ref' = [ref EXCEPT ![k] = ref[q]] /\ gone' = gone \ {k}
     /\ chan' = Emit("sqlRow", {Kid(k), Name(q)})
     /\ Log([a |-> "LinkKey", k |-> k, to |-> q])
-    /\ UNCHANGED <<keys, gen, fam, cache, alias, sigs, seen>>
+    /\ UNCHANGED <<keys, gen, fam, cache, alias, sigs, seen, uses>>
 
 \* a key reference row whose storage name is of class nc (rows are storage: not trusted)
 LinkName(nc) ==
     /\ Step /\ nc \notin alias
     /\ alias' = alias \cup {nc}
     /\ Log([a |-> "LinkName", nc |-> nc])
-    /\ UNCHANGED <<keys, ref, gen, fam, gone, cache, chan, sigs, seen>>
+    /\ UNCHANGED <<keys, ref, gen, fam, gone, cache, chan, sigs, seen, uses>>
 
 Admitted(nc) == PatternOK(nc) \/ (PatternAdmitsDotDot /\ nc = "dotdot")
 \* using the reference (resolve / sign / decrypt / exists / delete): the wrapper validates, then the backend is addressed
@@ -243,13 +291,15 @@ UseName(b, nc) ==
     /\ Step /\ nc \in alias
     /\ seen' = IF Admitted(nc) THEN seen \cup {<<b, nc>>} ELSE seen
     /\ Log([a |-> "UseName", b |-> b, nc |-> nc])
-    /\ UNCHANGED <<keys, ref, gen, fam, gone, cache, alias, chan, sigs>>
+    /\ UNCHANGED <<keys, ref, gen, fam, gone, cache, alias, chan, sigs, uses>>
 
 Next ==
-    \/ \E k \in Kids : New(k) \/ SignJWT(k) \/ SignDPoP(k) \/ SignLD(k) \/ SignTx(k) \/ Decrypt(k) \/ Resolve(k) \/ Delete(k) \/ SignDeleted(k)
+    \/ \E k \in Kids : New(k) \/ SignDPoP(k) \/ SignLD(k) \/ SignTx(k) \/ Decrypt(k) \/ Resolve(k) \/ Delete(k) \/ SignDeleted(k)
     \/ \E k \in Kids : Exists(k) \/ JWE(k)
     \/ \E k \in Kids, f \in KeyFamilies, via \in {"link", "migrate"} : Import(k, f, via)
-    \/ \E k \in Kids, j \in JwkClasses : SignJWS(k, j)
+    \/ \E k \in Kids, hk \in HdrKids : SignJWT(k, hk)
+    \/ \E k \in Kids, j \in JwkClasses, hk \in HdrKids : SignJWS(k, j, hk)
+    \/ \E c \in KidClasses : UseUnbound(c)
     \/ \E k, q \in Kids : LinkKey(k, q)
     \/ List
     \/ \E nc \in NameClasses : LinkName(nc)
@@ -269,6 +319,13 @@ NoCallerSecretEchoed == \A c \in Channels : \A a \in chan[c] : a[1] # "callersec
 NamespaceConfined == \A p \in seen : ~Outside(p[1], p[2])
 \* a signature for kid k was made by exactly the key CURRENTLY resolvable for k (also after delete / re-create / re-link)
 SignatureBoundToKid == \A s \in sigs : s.by = s.pub
+\* used only by key id: a request for a key id no key is bound to never selects a key
+UnboundKidSelectsNothing == uses = {}
+\* the kid written into a produced artefact names the key that really signed it (a verifier resolving the key by that kid
+\* gets the signer's public key), whatever `kid` the caller supplied among the headers ...
+ArtefactNamesSigner == \A s \in sigs : s.named # NA => s.named = s.by
+\* ... and so does the audit record of the signature
+AuditNamesSigner == \A s \in sigs : s.audited = s.by
 \* a deleted key can no longer sign
 DeletedKeyCannotSign == \A s \in sigs : s.pub # NoKey
 \* the secret stays where it is: only New puts key material (under its name) into the backend namespace
